@@ -92,11 +92,17 @@ impl<T> MemoryStore<T> {
         address: &Multiaddr,
         is_permanent: bool,
     ) -> bool {
-        let record = self
-            .records
-            .entry(*peer)
-            .or_insert_with(|| PeerRecord::new(self.config.record_capacity));
-        let is_new = record.add_address(address, is_permanent);
+        // Not via `LruCache::entry`: inserting through the entry API may exceed the configured
+        // capacity by one and does not refresh the peer's position in the LRU order.
+        let is_new = match self.records.get_mut(peer) {
+            Some(record) => record.add_address(address, is_permanent),
+            None => {
+                let mut record = PeerRecord::new(self.config.record_capacity);
+                let is_new = record.add_address(address, is_permanent);
+                self.records.insert(*peer, record);
+                is_new
+            }
+        };
         if is_new {
             self.push_event_and_wake(Event::PeerAddressAdded {
                 peer_id: *peer,
